@@ -582,6 +582,15 @@ class Interp:
             st.env.assume_eq(O(1, 'ule', ns, sl[4]), 1)
             st.events.append(('loopinit', ns, pos, sl[4]))
             return ('agg', k, (sl, ns))
+        if k == IT_TAKE:
+            inner, n = v[2]
+            ni = self.havoc_iterator(st, tag, local, inner, sfx + '.iter')
+            if ni is None:
+                return None
+            nn = S(n[1], name + '.n')
+            st.env.assume_eq(O(1, 'ule', nn, n), 1)
+            st.events.append(('loopinit', nn, n, None))
+            return ('agg', k, (ni, nn))
         if k == IT_ENUM:
             inner, count = v[2]
             ni = self.havoc_iterator(st, tag, local, inner, sfx + '.iter')
@@ -987,6 +996,30 @@ class Interp:
                     root = ('O', 'constalloc#%d' % st.n['obj'])
                     st.mem[root] = val
                     return ('ref', root, ())
+                mte = re.match(r'^&*\s*\[([\w:]+)(?:;\s*\d+)?\]$', tyname)
+                eadt = self.adts.get(mte.group(1)) if mte else None
+                if eadt and eadt['kind'] == 'enum' and all(not v.get('fields') for v in eadt['variants']) and \
+                        eadt.get('size') in (1, 2, 4, 8) and len(b) % eadt['size'] == 0:
+                    # a table of field-less enum values (`const PAIRS: [Register16; 4]`): one tag per element
+                    es = eadt['size']
+                    items = []
+                    for k0 in range(0, len(b), es):
+                        d = int.from_bytes(bytes(b[k0:k0 + es]), 'little')
+                        hit = [(i, v) for i, v in enumerate(eadt['variants']) if v['discr'] == d]
+                        if not hit:
+                            items = None
+                            break
+                        items.append(('agg', ('adt', mte.group(1), hit[0][0], hit[0][1]['name']), ()))
+                    if items is not None:
+                        arr = ('agg', ('array',), tuple(items))
+                        if not isref and tyname.startswith('['):
+                            return arr
+                        st.n['obj'] += 1
+                        root = ('O', 'constalloc#%d' % st.n['obj'])
+                        st.mem[root] = arr
+                        if o['ty'].startswith('&[') and ';' not in o['ty']:
+                            return ('slice', root, (), C(64, 0), C(64, len(items)))
+                        return ('ref', root, ())
                 arr = ('agg', ('array',), tuple(C(8, x) for x in b))
                 mt = re.match(r'^&*\s*\[(\w+)(?:;\s*\d+)?\]$', tyname)
                 if mt and int_type(mt.group(1)) and int_type(mt.group(1))[0] > 8:
@@ -1719,6 +1752,7 @@ def _tuple2(a, b):
 
 
 # the forwarding operator impls on references: <&usize as Mul<usize>>::mul, <u8 as BitAnd<&u8>>::bitand, ...
+_INT_DEFAULT = re.compile(r'^<(\w+) as std::default::Default>::default$')
 _REF_OP = re.compile(r"^<(&(?:'\w+ )?)?(\w+) as std::ops::(\w+)<(&(?:'\w+ )?)?(\w+)>>::(\w+)$")
 _OPS = {'Add': ('add', True), 'Sub': ('sub', True), 'Mul': ('mul', True), 'BitAnd': ('and', False), 'BitOr': ('or', False),
         'BitXor': ('xor', False), 'Div': ('udiv', False), 'Rem': ('urem', False)}
@@ -1798,6 +1832,13 @@ def int_method_model(callee):
             else:
                 yield (st.fresh(dbits, 'from'), st, 'ok', None)
         return conv
+    mm = _INT_DEFAULT.match(callee)
+    if mm and (mm.group(1) in INT_TYS or mm.group(1) == 'bool'):
+        dbits0 = INT_TYS[mm.group(1)][0] if mm.group(1) in INT_TYS else 1
+
+        def default_model(ip, st, fr, t, args, site, dest_ty):
+            yield (C(dbits0, 0), st, 'ok', None)
+        return default_model
     mm = _REF_OP.match(callee)
     if mm and mm.group(2) in INT_TYS and mm.group(5) == mm.group(2) and mm.group(3).lower() == mm.group(6).replace('_', ''):
         return ref_operator_model(INT_TYS[mm.group(2)][0], INT_TYS[mm.group(2)][1], mm.group(3))
@@ -1895,6 +1936,14 @@ def int_method_model(callee):
             part = O(bits, 'shl', byte, C(bits, 8 * (n - 1 - i)))
             out = part if out is None else O(bits, 'or', out, part)
         return out
+    def bitrev(a):
+        out = None
+        for i in range(bits):
+            j = bits - 1 - i
+            b_ = O(bits, 'and', a, C(bits, 1 << i))
+            part = b_ if i == j else (O(bits, 'shl', b_, C(bits, j - i)) if j > i else O(bits, 'shr', b_, C(bits, i - j)))
+            out = part if out is None else O(bits, 'or', out, part)
+        return out
     ovf = {'add': 'sadd_ovf' if signed else 'add_ovf', 'sub': 'ssub_ovf' if signed else 'sub_ovf',
            'mul': 'smul_ovf' if signed else 'mul_ovf'}
     table = {
@@ -1910,6 +1959,7 @@ def int_method_model(callee):
         'rotate_left': (lambda a, b: rot(a, b, True), 2),
         'rotate_right': (lambda a, b: rot(a, b, False), 2),
         'swap_bytes': (bswap, 1),
+        'reverse_bits': (bitrev, 1),
         'is_power_of_two': (lambda a: O(1, 'and', O(1, 'ne', a, zero),
                                         O(1, 'eq', O(bits, 'and', a, O(bits, 'sub', a, C(bits, 1))), zero)), 1),
     }
@@ -2181,8 +2231,12 @@ SOME = ('adt', 'std::option::Option', 1, 'Some')
 NONE = ('adt', 'std::option::Option', 0, 'None')
 
 
+IT_ARRAY = ('adt', 'gbsa::iter::Array', 0, 'Array')             # (array aggregate, position constant): `for x in [a, b, c]`
+IT_TAKE = ('adt', 'gbsa::iter::Take', 0, 'Take')                # (inner iterator, items still allowed)
+
+
 def is_iterator_value(v):
-    return v is not None and v[0] == 'agg' and (v[1] in (IT_SLICE, IT_ENUM, IT_REV, IT_RINC) or
+    return v is not None and v[0] == 'agg' and (v[1] in (IT_SLICE, IT_ENUM, IT_REV, IT_RINC, IT_ARRAY, IT_TAKE) or
                                                 (v[1][0] == 'adt' and v[1][1].endswith('ops::Range') and len(v[2]) == 2))
 
 
@@ -2217,6 +2271,24 @@ def iter_steps(v):
         return [(live(O(1, 'ult', cur, last)), cur, ('agg', k, (O(w, 'add', cur, C(w, 1)), last, C(1, 0)))),
                 (live(O(1, 'eq', cur, last)), cur, ('agg', k, (cur, last, C(1, 1)))),
                 (dead(O(1, 'ugt', cur, last)), None, v)]
+    if k == IT_ARRAY:
+        arr, pos = v[2]
+        if arr is None or arr[0] != 'agg' or pos[0] != 'c':
+            return None
+        if pos[2] < len(arr[2]):
+            return [(None, arr[2][pos[2]], ('agg', k, (arr, C(64, pos[2] + 1))))]
+        return [(None, None, v)]
+    if k == IT_TAKE:
+        inner, n = v[2]
+        sub = iter_steps(inner)
+        if sub is None or not is_int(n):
+            return None
+        more = O(1, 'ne', n, C(n[1], 0))
+        out = [(O(1, 'eq', n, C(n[1], 0)), None, v)]
+        for cond, item, new in sub:
+            c2 = more if cond is None else O(1, 'and', more, cond)
+            out.append((c2, item, ('agg', k, (new, O(n[1], 'sub', n, C(n[1], 1)) if item is not None else n))))
+        return out
     if k == IT_ENUM:
         inner, count = v[2]
         sub = iter_steps(inner)
@@ -2287,6 +2359,21 @@ def m_slice_iter(ip, st, fr, t, args, site, dest_ty):
 def m_enumerate(ip, st, fr, t, args, site, dest_ty):
     if is_iterator_value(args[0]):
         yield (('agg', IT_ENUM, (args[0], C(64, 0))), st, 'ok', None)
+    else:
+        yield from ip.unknown_external(st, t['resolved'] or t['callee'], args, site, dest_ty, t)
+
+
+def m_array_into_iter(ip, st, fr, t, args, site, dest_ty):
+    a = args[0]
+    if a is not None and a[0] == 'agg' and a[1][0] == 'array':
+        yield (('agg', IT_ARRAY, (a, C(64, 0))), st, 'ok', None)
+    else:
+        yield from ip.unknown_external(st, t['resolved'] or t['callee'], args, site, dest_ty, t)
+
+
+def m_take(ip, st, fr, t, args, site, dest_ty):
+    if is_iterator_value(args[0]) and is_int(args[1]) and iter_steps(('agg', IT_TAKE, (args[0], args[1]))) is not None:
+        yield (('agg', IT_TAKE, (args[0], args[1])), st, 'ok', None)
     else:
         yield from ip.unknown_external(st, t['resolved'] or t['callee'], args, site, dest_ty, t)
 
@@ -2698,6 +2785,59 @@ def m_from_raw_parts(ip, st, fr, t, args, site, dest_ty):
         yield from ip.unknown_external(st, t['resolved'] or t['callee'], args, site, dest_ty, t)
 
 
+def m_bool_then(ip, st, fr, t, args, site, dest_ty):
+    """bool::then(cond, closure): Some(closure()) when cond, None otherwise (the closure runs only when cond holds)"""
+    cond, clo = args
+    if clo is None or clo[0] != 'agg' or clo[1][0] != 'closure' or cond is None or not is_int(cond):
+        yield from ip.unknown_external(st, t['resolved'] or t['callee'], args, site, dest_ty, t)
+        return
+    cv = st.env.const_of(cond)
+    branches = []
+    if cv != 0:
+        s1 = st.copy() if cv is None else st
+        if cv == 1 or s1.env.assume_eq(cond, 1):
+            if cv is None:
+                s1.decisions.append((cond, 'then', site))
+            branches.append((s1, True))
+    if cv != 1:
+        if cv == 0 or st.env.assume_eq(cond, 0):
+            if cv is None:
+                st.decisions.append((cond, 'then', site))
+            branches.append((st, False))
+    for s_, taken in branches:
+        if not taken:
+            yield (('agg', NONE, ()), s_, 'ok', None)
+            continue
+        for (ret, s2, status, detail) in call_closure(ip, s_, fr, clo, [], site):
+            if status == 'ok':
+                yield (('agg', SOME, (ret,)), s2, 'ok', None)
+            else:
+                yield (ret, s2, status, detail)
+
+
+def m_option_map_or(ip, st, fr, t, args, site, dest_ty):
+    """Option::map_or(opt, default, closure)"""
+    opt, default, clo = args
+    if clo is None or clo[0] != 'agg' or clo[1][0] != 'closure' or opt is None:
+        yield from ip.unknown_external(st, t['resolved'] or t['callee'], args, site, dest_ty, t)
+        return
+    if opt[0] == 'agg' and opt[1][0] == 'adt' and opt[1][3] in ('Some', 'None'):
+        if opt[1][3] == 'None':
+            yield (default, st, 'ok', None)
+        else:
+            yield from call_closure(ip, st, fr, clo, [opt[2][0]], site)
+        return
+    d = ip.discriminant(st, opt, 64)
+    s2 = st.copy()
+    if not is_int(d) or s2.env.assume_eq(d, 0):
+        yield (default, s2, 'ok', None)
+    if not is_int(d) or st.env.assume_eq(d, 1):
+        inner = ip.project(st, ip.project(st, opt, ('d', 1, 'Some')), ('f', 0, '0', '', ''))
+        if inner is None:
+            inner = st.fresh(0, 'some')
+        yield from call_closure(ip, st, fr, clo, [inner], site)
+
+
 def m_option_is(which):
     def f(ip, st, fr, t, args, site, dest_ty):
         v = args[0]
@@ -2801,6 +2941,8 @@ STD_MODELS = {
     'std::ops::RangeInclusive::<Idx>::contains': m_range_contains,
     'std::ops::Range::<Idx>::contains': m_range_contains,
     'std::iter::Iterator::rev': m_rev,
+    'std::iter::Iterator::take': m_take,
+    'std::array::iter::<impl std::iter::IntoIterator for [T; N]>::into_iter': m_array_into_iter,
     'std::ops::RangeInclusive::<Idx>::new': m_range_inclusive_new,
     'std::mem::replace': m_mem_replace,
     'std::boxed::Box::<T>::new': m_box_new,
@@ -2809,6 +2951,8 @@ STD_MODELS = {
     'std::option::Option::<T>::expect': m_option_unwrap,
     'std::option::Option::<T>::and_then': m_and_then,
     'std::option::Option::<T>::map': m_option_map,
+    'std::option::Option::<T>::map_or': m_option_map_or,
+    'core::bool::<impl bool>::then': m_bool_then,
     'std::result::Result::<T, E>::map_err': m_result_map_err,
     'std::mem::size_of': m_size_of,
     'std::slice::from_raw_parts_mut': m_from_raw_parts,
